@@ -169,45 +169,68 @@ def r3_timespan(ctx) -> None:
     r, prog = ctx.r, ctx.prog
     r.rule("C10.R3", "timespan: count = int(spec[:-1]), unit = spec[-1] (case-sensitive: 'm' minutes, 'M' months), seconds = count × unit length with the unit table {s:1, m:60, h:3600, d:86400, w:604800, M:365.2425/12 days, y:365.2425 days}; convert_timespan returns seconds / count+mapped unit / the spec")
     f = prog.func(CORR + ".SigmaCorrelationTimespan.__post_init__")
-    tabs = [d for d in walk_no_nested(f.node) if isinstance(d, ast.Dict) and d.keys and all(isinstance(k, ast.Constant) for k in d.keys)]
-    if len(tabs) != 1:
-        raise AnalysisError(f"{f.qual}: unit table not found")
-    table = {k.value: const_eval(prog, f.module, v) for k, v in zip(tabs[0].keys, tabs[0].values)}
+    # both functions interpreted (sa.tabulate, Proxy) on sample specs / stand-in timespans
+    import types as _types
+    from ..tabulate import Proxy, call_method, Raised
+    TS = CORR + ".SigmaCorrelationTimespan"
+
+    class SigmaTimespanError(Exception):
+        def __init__(self, *a, **k): super().__init__(*a)
+
+    env = {"sigma_exceptions": _types.SimpleNamespace(SigmaTimespanError=SigmaTimespanError), "SigmaTimespanError": SigmaTimespanError}
+    IK = {"behaviours": (SigmaTimespanError, ValueError, TypeError, AttributeError), "max_steps": 4000}
     year = int(365.2425 * 86400)
     want = {"s": 1, "m": 60, "h": 3600, "d": 86400, "w": 604800, "M": year // 12, "y": year}
-    loc = f"{f.module.relpath}:{tabs[0].lineno}"
-    if table == want:
-        r.ok("C10.R3", f.qual, f"unit table {table}", loc)
+
+    def parse(spec):
+        me = Proxy(prog, TS, env, {"spec": spec}, interp_kwargs=IK)
+        try:
+            call_method(prog, TS, "__post_init__", me, env, interp_kwargs=IK)
+        except Raised as ex:
+            return f"<raises {'SigmaTimespanError' if 'SigmaTimespanError' in str(ex) else ex}>"
+        a = me.attrs()
+        return (a.get("count"), a.get("unit"), a.get("seconds"), a.get("spec"))
+
+    bad_units, bad_parse, bad_refuse = [], [], []
+    for u, length in want.items():
+        for cnt in (1, 5, 90):
+            got = parse(f"{cnt}{u}")
+            if got != (cnt, u, cnt * length, f"{cnt}{u}"):
+                (bad_units if isinstance(got, tuple) and got[:2] == (cnt, u) else bad_parse).append(f"{cnt}{u} → (count, unit, seconds, spec) = {got}, expected {(cnt, u, cnt * length, f'{cnt}{u}')}")
+    for spec in ("5", "m", "", "5x", "5S", "5H", "5D", "m5", "1.5h", None, 5, "5mm"):
+        got = parse(spec)
+        if got != "<raises SigmaTimespanError>":
+            bad_refuse.append(f"{spec!r} → {got} instead of SigmaTimespanError")
+    if not bad_units:
+        r.ok("C10.R3", f.qual, f"unit table {want}: seconds = count × unit length (interpreted on 3 counts per unit)", f.loc)
     else:
-        diff = {k: (table.get(k), want.get(k)) for k in set(table) | set(want) if table.get(k) != want.get(k)}
-        r.violation("C10.R3", f.qual, f"unit table differs at {diff}", "(found, expected) unit lengths in seconds: a backend that emits seconds would search another time window", loc)
-    src = unparse(f.node)
-    a = {unparse(n.targets[0]): unparse(n.value) for n in walk_no_nested(f.node) if isinstance(n, ast.Assign)}
-    if a.get("self.count") == "int(self.spec[:-1])" and a.get("self.unit") == "self.spec[-1]":
-        r.ok("C10.R3", f.qual, "count = int(spec[:-1]); unit = spec[-1] — parsed from the spec as given", f.loc)
+        r.violation("C10.R3", f.qual, f"unit table differs: {bad_units[0]}", "unit lengths in seconds: a backend that emits seconds would search another time window", f.loc)
+    if not bad_parse:
+        r.ok("C10.R3", f.qual, "count = int(spec[:-1]); unit = spec[-1] — parsed from the spec as given (case-sensitive: 'm' minutes, 'M' months)", f.loc)
     else:
-        r.violation("C10.R3", f.qual, f"count = {a.get('self.count')}; unit = {a.get('self.unit')}",
-                    "count and unit must be taken from the spec as written: normalising the text (lower-casing/stripping) turns months 'M' into minutes 'm'", f.loc)
-    sec = a.get("self.seconds", "")
-    if sec.startswith("self.count * {") and sec.endswith("}[self.unit]"):
-        r.ok("C10.R3", f.qual, "seconds = count × table[unit]", f.loc)
+        r.violation("C10.R3", f.qual, f"count/unit: {bad_parse[0]}",
+                    "count and unit must be taken from the spec as written: normalising the text (lower-casing/stripping) turns months 'M' into minutes 'm'; seconds must be count × unit length", f.loc)
+    if not bad_refuse:
+        r.ok("C10.R3", f.qual, "texts that are no count followed by one of the seven units are refused with SigmaTimespanError (12 samples incl. upper-case variants, no text at all)", f.loc)
     else:
-        r.violation("C10.R3", f.qual, f"seconds = {sec[:80]}", "seconds must be count × unit length", f.loc)
-    # nothing rewrites the spec before parsing
-    for n in walk_no_nested(f.node):
-        if isinstance(n, ast.Call) and isinstance(n.func, ast.Attribute) and n.func.attr in ("lower", "upper", "casefold", "swapcase", "title") and "spec" in unparse(n.func.value):
-            r.violation("C10.R3", f.qual, short(n, 80), "case folding of the timespan text merges the units 'm' (minutes) and 'M' (months)", f"{f.module.relpath}:{n.lineno}")
+        r.violation("C10.R3", f.qual, f"invalid timespan: {bad_refuse[0]}", "case folding of the timespan text merges the units 'm' (minutes) and 'M' (months); an invalid timespan must be a Sigma error", f.loc)
     ct = prog.func(TQ + ".convert_timespan")
-    rets = [(unparse(x.value), atomic_guards(guards_at(prog, ct, x))) for x in walk_no_nested(ct.node) if isinstance(x, ast.Return)]
-    want_r = [("str(timespan.seconds)", ("self.timespan_seconds", True)), ("str(timespan.count) + self.timespan_mapping[timespan.unit]", ("self.timespan_mapping is not None", True)), ("timespan.spec", None)]
-    okc = len(rets) == 3
-    for (v, gs), (wv, wg) in zip(rets, want_r):
-        if v != wv or (wg is not None and wg not in gs):
-            okc = False
-    if okc and ("timespan.unit in self.timespan_mapping", True) in rets[1][1]:
-        r.ok("C10.R3", ct.qual, "seconds if timespan_seconds; count + mapped unit if the unit is mapped; else the spec", ct.loc)
+    wrong = []
+    ts = _types.SimpleNamespace(spec="5M", count=5, unit="M", seconds=5 * want["M"])
+    for seconds_flag in (False, True):
+        for mapping in (None, {}, {"M": "mon"}, {"m": "min"}, {"M": "mon", "m": "min"}):
+            me = Proxy(prog, TQ, {}, {"timespan_seconds": seconds_flag, "timespan_mapping": mapping}, interp_kwargs={"max_steps": 2000})
+            try:
+                got = call_method(prog, TQ, "convert_timespan", me, {}, ts, None, None, interp_kwargs={"max_steps": 2000})
+            except Raised as ex:
+                got = f"<raises {ex}>"
+            wantv = str(ts.seconds) if seconds_flag else ("5" + mapping["M"] if mapping and "M" in mapping else "5M")
+            if got != wantv:
+                wrong.append(f"timespan_seconds={seconds_flag}, timespan_mapping={mapping}: {got!r} instead of {wantv!r}")
+    if not wrong:
+        r.ok("C10.R3", ct.qual, "seconds if timespan_seconds; count + mapped unit if the unit is mapped; else the spec (10 interpreted configurations)", ct.loc)
     else:
-        r.violation("C10.R3", ct.qual, str([v for v, _ in rets]), "convert_timespan must return seconds / count+mapped unit (only for mapped units) / the spec under the documented guards", ct.loc)
+        r.violation("C10.R3", ct.qual, f"convert_timespan: {wrong[0]}", "convert_timespan must return seconds / count+mapped unit (only for mapped units) / the spec under the documented guards", ct.loc)
     r.floor("C10.R3", 4)
 
 
@@ -215,7 +238,7 @@ def r4_field_mapping(ctx) -> None:
     r, prog = ctx.r, ctx.prog
     r.rule("C10.R4", "field-name pipelines cover every field-bearing attribute of a correlation rule: fields, group-by (alias names kept), alias mapping targets (only for referred rules the item's rule conditions match) and the condition field reference (string and list form; alias names kept) — FieldMappingTransformationBase.apply interpreted on stand-in correlation rules (sa.tabulate)")
     f = prog.func("sigma.processing.transformations.base.FieldMappingTransformationBase.apply")
-    from ..tabulate import Interp, Raised
+    from ..tabulate import Interp, Raised, Proxy, call_method
     MAP = {"user": ["U"], "ip": ["IP"], "u": ["ALIAS_U"], "other": ["other"]}
 
     class _Corr:
@@ -253,12 +276,12 @@ def r4_field_mapping(ctx) -> None:
     def run_case(rule):
         calls = []
         base = type("B", (), {"apply": lambda self_, rr: calls.append(rr)})()
-        me = type("T", (), {})()
-        me._apply_field_name = lambda fn: list(MAP.get(fn, [fn]))
-        me.processing_item = type("PI", (), {"match_rule_conditions": lambda self_, rr: rr.matches})()
-        it = Interp({"self": me, "rule": rule, "SigmaCorrelationRule": _Corr, "SigmaCorrelationCondition": _Cond, "super": lambda: base,
-                     "SigmaConfigurationError": type("SigmaConfigurationError", (Exception,), {}), "next": next}, max_steps=20000)
-        it.call(f.node.body)
+        env = {"SigmaCorrelationRule": _Corr, "SigmaCorrelationCondition": _Cond, "super": lambda: base,
+               "SigmaConfigurationError": type("SigmaConfigurationError", (Exception,), {}), "next": next}
+        FM = "sigma.processing.transformations.base.FieldMappingTransformationBase"
+        me = Proxy(prog, FM, env, {"_apply_field_name": lambda fn: list(MAP.get(fn, [fn])),
+                                   "processing_item": type("PI", (), {"match_rule_conditions": lambda self_, rr: rr.matches})()}, interp_kwargs={"max_steps": 20000})
+        call_method(prog, FM, "apply", me, env, rule, interp_kwargs={"max_steps": 20000})
         return calls
 
     cases = []
